@@ -29,7 +29,7 @@ func (fr *Frame) pow2(n string) string {
 	}
 	t := sApp("pow2", n)
 	key := "pow2:" + n
-	if !fc.declSet[key] && !reBoundVar.MatchString(n) {
+	if !fc.noAux && !fc.declSet[key] && !reBoundVar.MatchString(n) {
 		fc.declSet[key] = true
 		fc.permFact(sApp(">=", t, "1"))
 		fc.permFact(sImp(sEq(n, "0"), sEq(t, "1")))
@@ -59,7 +59,7 @@ func (fr *Frame) bitlenOf(x string) string {
 	fc := fr.fc
 	t := sApp("bitlen", sApp("absI", x))
 	key := "bitlen:" + x
-	if !fc.declSet[key] && !reBoundVar.MatchString(x) {
+	if !fc.noAux && !fc.declSet[key] && !reBoundVar.MatchString(x) {
 		fc.declSet[key] = true
 		ax := sApp("absI", x)
 		p := fr.pow2(t)
